@@ -252,6 +252,68 @@ def wrun (st : Store) : List WEvent → Store
   | [] => st
   | e :: es => wrun (wstep st e) es
 
+/-! ### The analysis database is keyed by `source_key_for_uri`, not by URI
+
+`Doc.analysed` above is the text a URI last handed to `project.set_source_text(key, ·)`.  The
+project stores it under `source_key_for_uri(uri)` (`state/path.rs`): `SourceKey::Path` of
+`uri_to_path(uri)` — `Url::to_file_path`, which looks at the path only, not at the scheme, the
+query or the fragment — else `SourceKey::Virtual(uri)`.  `key u` is the number of the key of URI
+number `u`; what the analysis reads for `u` is `db (key u)`. -/
+
+/-- `Project` sources by key number. -/
+def Db := Nat → Option (List Char)
+
+def Db.set (db : Db) (k : Nat) (t : Option (List Char)) : Db :=
+  fun j => if j = k then t else db j
+
+/-- The `set_source_text` of `index_document_impl` (same guards as `step … (.watchedChanged ·)`). -/
+def dbIndex (key : Nat → Nat) (docs : Store) (db : Db) (u : Nat) : Option (List Char) → Db
+  | none => db
+  | some disk =>
+    match docs u with
+    | some doc =>
+      if doc.isOpen then db else if doc.text = disk then db else db.set (key u) (some disk)
+    | none => db.set (key u) (some disk)
+
+/-- The `set_source_text` / `remove_source` calls of every handler, next to `wstep`. -/
+def dbStep (key : Nat → Nat) (docs : Store) (db : Db) : WEvent → Db
+  | .doc u (.didOpen _ t) => db.set (key u) (some t)
+  | .doc u (.didChange _ cs) =>
+    if cs.isEmpty then db
+    else match docs u with
+      | none => db
+      | some doc =>
+        match applyContentChanges doc.text cs with
+        | .ok t => db.set (key u) (some t)
+        | _ => db
+  | .doc _ .didClose => db
+  | .doc _ .didSave => db
+  | .doc u (.watchedChanged disk) => dbIndex key docs db u disk
+  | .doc u .watchedDeleted =>
+    match docs u with
+    | some doc => if doc.isOpen then db else db.set (key u) none
+    | none => db
+  | .renamed o n disk =>
+    match docs o with
+    | some d =>
+      if d.isOpen then ((db.set (key o) none).set (key n) none).set (key n) (some d.text)
+      else dbIndex key (docs.set o none) (db.set (key o) none) n disk
+    | none => dbIndex key docs db n disk
+
+/-- Documents by URI and sources by key. -/
+structure KStore where
+  docs : Store
+  db : Db
+
+def kstep (key : Nat → Nat) (st : KStore) (e : WEvent) : KStore :=
+  { docs := wstep st.docs e, db := dbStep key st.docs st.db e }
+
+def krun (key : Nat → Nat) (st : KStore) : List WEvent → KStore
+  | [] => st
+  | e :: es => krun key (kstep key st e) es
+
+def kInit : KStore := { docs := fun _ => none, db := fun _ => none }
+
 /-! ### `semanticTokens/full/delta` -/
 
 /-- Length of the longest common prefix (`while prefix < min_len && previous[prefix] ==
